@@ -8,9 +8,9 @@ NOTE_COMMON = ("Trusted: z3 5.1.0; the proxy engine /verif/sx (its agreement wit
                "Bounded: rounds, parameter grid, dimensions and arities as listed in the evidence file under coverage.bounds. ")
 
 CHECKS = {
-    "C01": ("Bounded symbolic model checking of the documented ask/tell loop for all 14 algorithms x 5 partition classes: box bounds, rewards and every RNG outcome are solver variables; on every path z3 proves each returned coordinate lies in [lo,hi]; exceptions, None/inf/NaN returns and watchdog expiry are replayed concretely before being reported. Mode B adds long runs: a concrete objective-like prefix of 3-78 rounds (concrete box and draws) followed by 2-3 fully symbolic rounds for every algorithm, including non-default parameters and budgets.",
+    "C01": ("Bounded symbolic model checking of the documented ask/tell loop for all 14 algorithms x 5 partition classes: box bounds, rewards and every RNG outcome are solver variables; on every path z3 proves each returned coordinate lies in [lo,hi]; exceptions, None/inf/NaN returns and watchdog expiry are replayed concretely before being reported. Mode B adds long runs: a concrete objective-like prefix of 3-300 rounds (concrete box and draws; also integer-typed rewards and integer box bounds) followed by 1-4 fully symbolic rounds for every algorithm, including non-default parameters and budgets.",
             "Histories are bounded by T rounds per algorithm (T in evidence); known findings (POO rhomax<0.832, VROOM non-binary, early get_last_point of GPO/StroquOOL) are listed in known_findings.json.", "§3 C01"),
-    "C02": ("One-step symbolic check of make_children of all five partition classes on an arbitrary box (= arbitrary cell): arity, containment, chain of shared faces (same term = bit-identical), outer faces are the parent's own terms, equal sizes, centre representatives, parent box untouched; all split dimensions and all split draws of the closed interval. Leaves-tile-the-domain follows by induction on expansions (paper argument). Floating-point lemmas L-mid (binary16/32, thorough binary64) and L-kary (np.linspace, binary16 K=2,3; thorough K=4,5 and binary32) are proved by z3 over FloatingPoint terms obtained by running the real partition code on FP proxies.",
+    "C02": ("One-step symbolic check of make_children of all five partition classes on an arbitrary box (= arbitrary cell): arity, containment, chain of shared faces (same term = bit-identical), outer faces are the parent's own terms, equal sizes, centre representatives, parent box untouched; all split dimensions and all split draws of the closed interval. Leaves-tile-the-domain follows by induction on expansions (paper argument). Floating-point lemmas L-mid (binary16/32, thorough binary64) and L-kary (np.linspace, binary16 K=2,3; thorough K=4,5 and binary32) are proved by z3 over FloatingPoint terms obtained by running the real partition code on FP proxies; a refuted reduced-precision lemma is reported only with a binary64 box on which the unshimmed code fails the same obligation.",
             "K and d bounded as in evidence; floating-point rounding of the boundaries is the subject of the FP lemmas, not of this real-arithmetic run.", "§3 C02"),
     "C03": ("Three solver-driven parts on the real partition code: (1) make_children on a cell whose (depth, index) label is a pair of integer solver variables: z3 proves child j gets depth h+1 and index K(i-1)+j+1 and that children of cells i != i' have disjoint labels (all 5 classes, K 2..6, d 1..3); (2) every interleaving of deepen()/make_children(leaf) up to m operations with the structural invariant INV evaluated on the object graph after each; (3) INV, leaf-only expansion and the newlayer flag after every call of every algorithm under every reward history within the C01 bounds. Mode B configurations put INV on trees of 10-80 rounds.",
             "Part 2 is bounded-exhaustive enumeration of finite choices driven by the engine; uniqueness of labels for whole trees follows from part 1 by induction (paper argument).", "§3 C03"),
@@ -22,7 +22,7 @@ CHECKS = {
             "Parameter grid in evidence; c1*delta <= 1/2; ties may be broken either way; epochs at power-of-two rounds admitted both ways (DESIGN §5a).", "§3 C05"),
     "C06": ("Same exploration with make_children wrapped per instance: per round at most one expansion, under the pulled cell, only of a leaf, in the reward phase, new cells with zero pulls and infinite U/B; T-HOO expands iff depth <= ceil((ln n/2 - ln(1/nu))/ln(1/rho)) and the tree never exceeds bound+1; HCT/VHCT expand iff leaf and T >= tau (both directions, thresholds from the reference; VHCT's variance-dependent threshold decided by z3 in QF_NRA). Grid includes negative, zero (ambiguous) and small truncation bounds; Mode B prefixes as in C05.",
             "For T-HOO and HCT thresholds and counts are concrete on a path, so the rule itself is evaluated concretely on each of the symbolically enumerated paths; the solver decides which paths exist.", "§3 C06"),
-    "C07": ("Run-level symbolic exploration with a ledger of (point object, reward term): get_last_point() is queried after every round (DOO, SOO, SequOOL, StoSOO) or at the end (StroquOOL whole runs for n=100/200; POO/GPO/PCT/VPCT over recording stub learners for the whole budget); z3 proves under the path condition - which contains the comparisons made inside get_last_point - that the returned list is an evaluated point whose reward (StoSOO: recorded mean of a deepest-level cell; StroquOOL: validation mean; wrappers: learner score / validation mean recomputed by the harness) is >= that of every competitor. Rewards are unconstrained in sign.",
+    "C07": ("Run-level symbolic exploration with a ledger of (point object, reward term): get_last_point() is queried after every round (DOO, SOO, SequOOL, StoSOO) or at the end (StroquOOL: after every round of the validation stage and at the end, whole runs for n=100/200 and Mode-B runs up to n=3000; POO/GPO/PCT/VPCT over recording stub learners for the whole budget); z3 proves under the path condition - which contains the comparisons made inside get_last_point - that the returned list is an evaluated point whose reward (StoSOO: recorded mean of a deepest-level cell; StroquOOL: validation mean; wrappers: learner score / validation mean recomputed by the harness) is >= that of every competitor. Rewards are unconstrained in sign.",
             "No tie-break is demanded. Wrapper scores are recomputed from delivered rewards; GPO's schedule (N, phase length) comes from the published formula.", "§3 C07"),
     "C08": ("Run-level symbolic exploration of SOO / StoSOO / DOO with make_children wrapped per instance and a hook that inspects the tree right before every expansion: only evaluated (StoSOO: k-times) leaves are expanded, no unevaluated leaf at a depth <= the expanded one (DOO: anywhere), the expanded leaf has the highest value of its depth (DOO: of all leaves; values recomputed from the ledger, validity under the path condition), sweeps monotone, caps respected, each cell evaluated at most once / k times, the cell handed out is an unevaluated leaf with no shallower unevaluated leaf (StoSOO: a max-b leaf of its depth with < k evaluations), DOO one expansion per pull.",
             "In this implementation a sweep never contains two expansions (the layer below an expansion always holds fresh leaves), so the sweep-monotonicity clause is vacuous on the current tree; DOO default delta on a concrete box.", "§3 C08"),
@@ -34,9 +34,9 @@ CHECKS = {
             "RNG conformance to the weight vector is NumPy's contract; binary-child partitions in d=1.", "§3 C13"),
     "C09": ("GPO/PCT/VPCT driven over recording stub learners for the whole budget with symbolic rewards: every n in 100..300 for rhomax=0.9 (thorough: ..1000) and a stride over the other rhomax / base learners; N and floor(n/2N) recomputed by the harness; asserts the number of learners, their (nu, rho_i) parameters and distinctness, creation exactly at phase starts, each learner pulled and credited for exactly floor(n/2N) rounds with the rewards of its own proposals, validation rounds touching no learner and re-serving the learner's last proposal, z3 proves each score equals the mean of exactly its validation rewards, and after the last phase pull and get_last_point return a validated point whose score is >= all others (free-reward runs explore every outcome of the arg-max).",
             "Stub learners; banded rewards in the sweep (schedule is reward independent); near-integer values of the N formula accept both neighbours.", "§3 C09"),
-    "C10": ("POO driven over recording stub learners with symbolic rewards for 150 rounds (thorough 600) per rhomax in {0.84..0.99} and base name: after every round exactly one learner served the pull and exactly that learner received the reward, learners are only appended, each new learner has nu_max and a rho on the published grid inside (0, rho_max) distinct from all others, Times[i] equals the number of delivered rewards and z3 proves V_reward[i] equals their arithmetic mean; get_last_point is the next proposal of a learner whose mean is >= every other's (all outcomes of the arg-max in the free-reward runs). Plus an inductive step: POO put into an abstract state (symbolic per-learner count m, cursor, counter, scores with V*count = S), one real pull+receive_reward, z3 proves routing, count+1, score*(count+1) = S + r, others untouched, n = count*N re-established; plus a sweep over declared budgets 12..130.",
+    "C10": ("POO driven over recording stub learners with symbolic rewards for 150 rounds (thorough 600) per rhomax in {0.84..0.99} and base name: after every round exactly one learner served the pull and exactly that learner received the reward, learners are only appended, each new learner has nu_max and a rho on the published grid inside (0, rho_max) distinct from all others, Times[i] equals the number of delivered rewards and z3 proves V_reward[i] equals their arithmetic mean; get_last_point - queried at the end of every run and after three consecutive rounds t-2, t-1, t for every t of a window - is the next proposal of a learner whose mean is >= every other's (all outcomes of every arg-max in the free-reward runs). Plus an inductive step: POO put into an abstract state (symbolic per-learner count m, cursor, counter, scores with V*count = S), one real pull+receive_reward, z3 proves routing, count+1, score*(count+1) = S + r, others untouched, n = count*N re-established; plus a sweep over declared budgets 12..130.",
             "Horizon bounded (the inductive step sketched in DESIGN is not discharged); stub learners.", "§3 C10"),
-    "C14": ("Non-interference inside one symbolic path: (determinism) every algorithm is run twice with the same reward terms and the same recorded RNG draws while time/random/os/uuid/datetime/secrets (if imported by a PyXAB module) and the builtins id/hash return fresh arbitrary solver values in each run - z3 proves the two point sequences and recommendations equal; (isolation) two instances on two different symbolic boxes are run interleaved, every interleaving a free choice, and each must reproduce its solo sequence and stay in its own box; (inputs) the user's domain object is compared by identity and term identity before/after every run. Cell hashes are an environment as well (two concrete assignments for the two runs); 'reuse' mode: the same run before/after an instance with other constructor arguments lived in the process; reversed-range and shared-domain inputs for the non-mutation clause.",
+    "C14": ("Non-interference inside one symbolic path: (determinism) every algorithm is run twice with the same reward terms and the same recorded RNG draws while time/random/os/uuid/datetime/secrets (if imported by a PyXAB module) and the builtins id/hash return fresh arbitrary solver values in each run - z3 proves the two point sequences and recommendations equal; (isolation) two instances on two different symbolic boxes are run interleaved, every interleaving a free choice, and each must reproduce its solo sequence and stay in its own box; (inputs) the user's domain object is compared by identity and term identity before/after every run. Cell hashes are an environment as well (two concrete assignments for the two runs); 'reuse' mode: the same run before/after an instance with other constructor arguments lived in the process; reference runs start from the import-time module/class state; cross-class pairs whose integer arguments coincide with round numbers of the other instance; reversed-range and shared-domain inputs for the non-mutation clause.",
             "Hash-ordering of sets/dicts keyed by objects and C-level RNGs other than np.random.* cannot be made symbolic from outside the interpreter. Isolation on RNG-free partitions as the property states.", "§3 C14"),
     "C15": ("Product run inside one path with the same rewards and RNG draws: (time) rounds labelled 1..T vs arbitrary strictly increasing integer labels (solver variables, stronger than the offsets 0/1/17) for T-HOO, HCT, VHCT, Zooming, POO, GPO, PCT, VPCT, DOO, SOO, SequOOL, VROOM; (queries) 0/1/2 get_last_point() calls inserted before every pull (every combination) for T-HOO, HCT, VHCT, Zooming, POO; z3 proves all outputs equal. Mode B: concrete prefix, all labels of the second run symbolic, queries in the symbolic rounds.",
             "Bounded rounds; StoSOO and StroquOOL excluded by the property.", "§3 C15"),
